@@ -183,6 +183,139 @@ Theorem C13_q_ema_is_real :
   (forall l : list (list bool), Q2R (multi_pQ l) = multi_pR l).
 Proof. exact (conj q2r_ema (conj q2r_chain_p q2r_multi_p)). Qed.
 
+(* ---- (e) the tracker update IN FLOATING POINT (Model/Tracker.v trk32_step: ChainTracker::step for one
+   parameter, binary32, round to nearest even; the model the correspondence check evaluates bit for bit
+   through trk32_eval).  `rnd` is rounding to nearest even in binary32.
+   (1) the first update stores the state itself as the mean and its rounded square;
+   (2) a later update (count n0 >= 1, n0 < 2^24, magnitudes at most 2^40) is finite and is the exact
+       running-mean update of (a) with each of its operations rounded; n0 + 1 and n0 are exact in f32;
+   (3) one update is within 3 * 2^(k-24) (mean, magnitudes at most 2^k) resp. 4 * 2^(2k-24) (mean of
+       squares, magnitudes at most 2^(2k)) of the exact update (absolute error, underflow included);
+   (4) |mean| <= 2^k and 0 <= mean_sq <= 2^(2k) are preserved by every update (no rounding slack), hence
+       along every history of at most 2^24 finite states of magnitude at most 2^k;
+   (5) after such a history of n states the float mean is within 3 * 2^(k-24) * (n + 1) / 2 of the exact
+       tracker mean of (a) (= the mean of the states, C13_mean / C13_mean_explicit).
+   Proofs/TrackerFloat.v ---- *)
+From MiniMcmc Require Import Proofs.TrackerFloat.
+Section C13_float.
+  Notation rnd := (Generic_fmt.round Zaux.radix2 (FLT.FLT_exp (-149) 24)
+                     (Generic_fmt.Znearest (fun x => negb (Z.even x)))).
+  Notation B2R := (Binary.B2R 24 128).
+  Notation is_finite := (Binary.is_finite 24 128).
+  Notation pow2 := (Raux.bpow Zaux.radix2).
+
+  Theorem C13_float_first_update : forall x : binary32,
+    is_finite x = true -> (Rabs (B2R x) <= pow2 60)%R ->
+    let '(n, mean, msq) := trk32_step (O, f32_zero, f32_zero) x in
+    n = 1%nat /\ is_finite mean = true /\ is_finite msq = true /\
+    B2R mean = B2R x /\ B2R msq = rnd (B2R x * B2R x)%R.
+  Proof. exact trk32_first_update. Qed.
+
+  Theorem C13_float_update_rounded_value : forall (n0 : nat) (mean msq x : binary32),
+    (1 <= n0)%nat -> (Z.of_nat n0 < 2 ^ 24)%Z ->
+    is_finite mean = true -> is_finite msq = true -> is_finite x = true ->
+    (Rabs (B2R mean) <= pow2 40)%R -> (Rabs (B2R msq) <= pow2 40)%R -> (Rabs (B2R x) <= pow2 40)%R ->
+    let '(n, mean', msq') := trk32_step (n0, mean, msq) x in
+    n = S n0 /\ is_finite mean' = true /\ is_finite msq' = true /\
+    B2R mean' = rnd (rnd (rnd (B2R mean * INR n0) + B2R x) / INR (S n0))%R /\
+    B2R msq' = rnd (rnd (rnd (B2R msq * INR n0) + rnd (B2R x * B2R x)) / INR (S n0))%R.
+  Proof. exact trk32_update_rounded_value. Qed.
+
+  (* the counts entering the update are exact: (n as f32) = n and (n as f32) - 1.0 = n - 1 *)
+  Theorem C13_float_count_exact : forall n0 : nat, (Z.of_nat (S n0) <= 2 ^ 24)%Z ->
+    (is_finite (cnt32 (S n0)) = true /\ B2R (cnt32 (S n0)) = INR (S n0)) /\
+    (is_finite (b32_minus mode_NE (cnt32 (S n0)) f32_one) = true /\
+     B2R (b32_minus mode_NE (cnt32 (S n0)) f32_one) = INR n0).
+  Proof. intros n0 Hn. exact (conj (cnt32_exact (S n0) Hn) (cnt32_minus_one n0 Hn)). Qed.
+
+  Theorem C13_float_update_error : forall (k : Z) (n0 : nat) (mean msq x : binary32),
+    (Z.of_nat n0 < 2 ^ 24)%Z -> (-126 <= k <= 103)%Z ->
+    is_finite mean = true -> is_finite x = true ->
+    (Rabs (B2R mean) <= pow2 k)%R -> (Rabs (B2R x) <= pow2 k)%R ->
+    let '(n, mean', msq') := trk32_step (n0, mean, msq) x in
+    is_finite mean' = true /\
+    (Rabs (B2R mean' - (B2R mean * INR n0 + B2R x) / INR (S n0)) <= 3 * pow2 (k - 24))%R.
+  Proof. exact trk32_update_error_mean. Qed.
+
+  Theorem C13_float_update_error_sq : forall (k : Z) (n0 : nat) (mean msq x : binary32),
+    (1 <= n0)%nat -> (Z.of_nat n0 < 2 ^ 24)%Z -> (-63 <= k <= 51)%Z ->
+    is_finite msq = true -> is_finite x = true ->
+    (Rabs (B2R msq) <= pow2 (2 * k))%R -> (Rabs (B2R x) <= pow2 k)%R ->
+    let '(n, mean', msq') := trk32_step (n0, mean, msq) x in
+    is_finite msq' = true /\
+    (Rabs (B2R msq' - (B2R msq * INR n0 + B2R x * B2R x) / INR (S n0)) <= 4 * pow2 (2 * k - 24))%R.
+  Proof. exact trk32_update_error_msq. Qed.
+
+  Theorem C13_float_update_range : forall (k : Z) (n0 : nat) (mean msq x : binary32),
+    (Z.of_nat n0 < 2 ^ 24)%Z -> (-74 <= k <= 51)%Z ->
+    is_finite mean = true -> is_finite msq = true -> is_finite x = true ->
+    (Rabs (B2R mean) <= pow2 k)%R -> (0 <= B2R msq <= pow2 (2 * k))%R -> (Rabs (B2R x) <= pow2 k)%R ->
+    let '(n, mean', msq') := trk32_step (n0, mean, msq) x in
+    n = S n0 /\ is_finite mean' = true /\ is_finite msq' = true /\
+    (Rabs (B2R mean') <= pow2 k)%R /\ (0 <= B2R msq' <= pow2 (2 * k))%R.
+  Proof. exact trk32_update_range. Qed.
+
+  Theorem C13_float_run_range : forall (k : Z) (xs : list binary32),
+    (-74 <= k <= 51)%Z -> (Z.of_nat (length xs) <= 2 ^ 24)%Z ->
+    Forall (fun x => is_finite x = true /\ (Rabs (B2R x) <= pow2 k)%R) xs ->
+    let '(n, mean, msq) := fold_left trk32_step xs (O, f32_zero, f32_zero) in
+    n = length xs /\ is_finite mean = true /\ is_finite msq = true /\
+    (Rabs (B2R mean) <= pow2 k)%R /\ (0 <= B2R msq <= pow2 (2 * k))%R.
+  Proof. exact trk32_run_range. Qed.
+
+  Theorem C13_float_run_mean_error : forall (k : Z) (xs : list binary32),
+    (-74 <= k <= 51)%Z -> (Z.of_nat (length xs) <= 2 ^ 24)%Z ->
+    Forall (fun x => is_finite x = true /\ (Rabs (B2R x) <= pow2 k)%R) xs ->
+    let '(n, mean, msq) := fold_left trk32_step xs (O, f32_zero, f32_zero) in
+    (Rabs (B2R mean - t_mean numR (trk_run numR (map B2R xs)))
+     <= 3 * pow2 (k - 24) * (INR (length xs) + 1) / 2)%R.
+  Proof. exact trk32_run_mean_error. Qed.
+End C13_float.
+
+(* states 1.0, 2.0, 3.0 (bit patterns): the tracker reports mean 2.0 exactly and the unbiased variance
+   1 - 4 * 2^-24 (bits 1065353212; the exact value is 1.0 = bits 1065353216: mean_sq = 14/3 is rounded) *)
+Example C13_float_tracker_concrete :
+  trk32_eval [1065353216; 1073741824; 1077936128]%Z = [1073741824; 1065353212]%Z.
+Proof. vm_compute. reflexivity. Qed.
+
+(* the first update on the state 1.0 gives count 1, mean 1.0, mean_sq 1.0; the hypotheses of (2), (3), (4)
+   hold with k = 1 for that tracker state and the new state 2.0; the update returns count 2, mean 1.5
+   (bits 1069547520) and mean_sq 2.5 (bits 1075838976), both exact here *)
+Example C13_float_update_concrete :
+  let one := b32_of_bits 1065353216 in
+  let two := b32_of_bits 1073741824 in
+  (1 <= 1)%nat /\ (Z.of_nat 1 < 2 ^ 24)%Z /\ (-63 <= 1 <= 51)%Z /\
+  Binary.is_finite 24 128 one = true /\ Binary.is_finite 24 128 two = true /\
+  (Rabs (Binary.B2R 24 128 one) <= Raux.bpow Zaux.radix2 1)%R /\
+  (0 <= Binary.B2R 24 128 one <= Raux.bpow Zaux.radix2 (2 * 1))%R /\
+  (Rabs (Binary.B2R 24 128 two) <= Raux.bpow Zaux.radix2 1)%R /\
+  (Rabs (Binary.B2R 24 128 one) <= Raux.bpow Zaux.radix2 40)%R /\
+  (Rabs (Binary.B2R 24 128 two) <= Raux.bpow Zaux.radix2 40)%R /\
+  (let '(n, mean', msq') := trk32_step (O, f32_zero, f32_zero) one in
+   n = 1%nat /\ bits_of_b32 mean' = 1065353216%Z /\ bits_of_b32 msq' = 1065353216%Z) /\
+  (let '(n, mean', msq') := trk32_step (1%nat, one, one) two in
+   n = 2%nat /\ bits_of_b32 mean' = 1069547520%Z /\ bits_of_b32 msq' = 1075838976%Z).
+Proof.
+  cbv zeta.
+  change (b32_of_bits 1065353216) with f32_one.
+  destruct f32_one_spec as [F1 V1]. destruct f32_two_spec as [F2 V2].
+  rewrite V1, V2.
+  assert (P1 : Raux.bpow Zaux.radix2 1 = 2%R) by reflexivity.
+  assert (P2 : Raux.bpow Zaux.radix2 (2 * 1) = 4%R)
+    by (cbn [Z.mul Pos.mul Raux.bpow Z.pow_pos Pos.iter radix_val Zaux.radix2]; Lra.lra).
+  assert (P40 : (2 <= Raux.bpow Zaux.radix2 40)%R)
+    by (rewrite <- P1; apply Raux.bpow_le; vm_compute; discriminate).
+  rewrite P1, P2.
+  assert (A1 : Rabs 1 = 1%R) by (apply Rabs_pos_eq; Lra.lra).
+  assert (A2 : Rabs 2 = 2%R) by (apply Rabs_pos_eq; Lra.lra).
+  rewrite A1, A2.
+  split; [apply le_n|]. split; [vm_compute; reflexivity|].
+  split; [split; vm_compute; discriminate|].
+  split; [exact F1|]. split; [exact F2|].
+  split; [Lra.lra|]. split; [Lra.lra|]. split; [Lra.lra|]. split; [Lra.lra|]. split; [Lra.lra|].
+  split; vm_compute; repeat split.
+Qed.
+
 Print Assumptions C13_count.
 Print Assumptions C13_mean.
 Print Assumptions C13_sum_is_sum.
@@ -203,3 +336,13 @@ Print Assumptions C13_q_tracker_is_real.
 Print Assumptions C13_q_variance_is_real.
 Print Assumptions C13_q_batch_rhat2_is_real.
 Print Assumptions C13_q_ema_is_real.
+Print Assumptions C13_float_first_update.
+Print Assumptions C13_float_update_rounded_value.
+Print Assumptions C13_float_count_exact.
+Print Assumptions C13_float_update_error.
+Print Assumptions C13_float_update_error_sq.
+Print Assumptions C13_float_update_range.
+Print Assumptions C13_float_run_range.
+Print Assumptions C13_float_run_mean_error.
+Print Assumptions C13_float_tracker_concrete.
+Print Assumptions C13_float_update_concrete.
